@@ -227,68 +227,45 @@ def nontrivial(sc):
                 or c["ocert"] != "ok")
 
 
+def clean(o):
+    return o["clause"] == "ok" and not o["diff"] and not o["errors"] and o["soft"] == "ok"
+
+
+def assess(scenarios, runs, verdicts):
+    out = []
+    for sc, (ev, errs, raw), (pos, clause, soft) in zip(scenarios, runs, verdicts):
+        d = diff(sc["log"], ev) if sc.get("log") is not None else None
+        out.append({"sc": sc, "events": ev, "errors": errs, "pos": pos, "clause": clause, "soft": soft, "diff": d,
+                    "raw": [(c, p, b.decode("latin-1")) for c, p, b in raw]})
+    return out
+
+
 def judge(scenarios):
-    """Replay scenarios on the real code, validate the recorded logs with TLC, compare with the
-    expected logs.  A non-clean scenario is re-run once: only a reproducible result counts."""
-    res = {"n": 0, "events": 0, "viol": [], "drift": [], "soft": [], "flaky": 0, "harness": [], "samples": [], "nt": []}
-
-    def once(batch):
-        runs = [run_scenario(sc) for sc in batch]
-        verdicts = validate([{"cfg": sc["cfg"], "events": ev} for sc, (ev, _, _) in zip(batch, runs)])
-        out = []
-        for sc, (ev, errs, raw), (pos, clause, soft) in zip(batch, runs, verdicts):
-            d = diff(sc["log"], ev) if sc.get("log") is not None else None
-            out.append({"sc": sc, "events": ev, "errors": errs, "pos": pos, "clause": clause, "soft": soft, "diff": d,
-                        "raw": [(c, p, b.decode("latin-1")) for c, p, b in raw]})
-        return out
-
-    first = once(scenarios)
-    again = [o for o in first if o["clause"] != "ok" or o["diff"] or o["errors"] or o["soft"] != "ok"]
-    second = {sc_key(o["sc"]): o for o in once([o["sc"] for o in again])} if again else {}
-    for o in first:
-        res["n"] += 1
-        res["events"] += len(o["events"])
-        if nontrivial(o["sc"]):
-            res["nt"].append(hashlib.md5(sc_key(o["sc"]).encode()).hexdigest()[:16])
-        if len(res["samples"]) < 2 and nontrivial(o["sc"]):
-            res["samples"].append({"scenario": {k: o["sc"][k] for k in ("cfg", "nreq", "replies", "closes")},
-                                   "recorded": [{k: v for k, v in e.items() if v != pn.BLANK[k]} for e in o["events"]],
-                                   "verdict": o["clause"]})
-        o2 = second.get(sc_key(o["sc"]))
-        if o2 is not None:
-            clean2 = o2["clause"] == "ok" and not o2["diff"] and not o2["errors"] and o2["soft"] == "ok"
-            if clean2:
-                res["flaky"] += 1
-                continue
-            o = o2
-        if o["clause"] != "ok":
-            res["viol"].append(o)
-        elif o["errors"]:
-            res["harness"].append(o)
-        elif o["diff"]:
-            res["drift"].append(o)
-        elif o["soft"] != "ok":
-            res["soft"].append(o)
-    return res
+    """In-process: replay, validate with TLC, compare with the expected logs (used for re-runs / --replay)."""
+    runs = [run_scenario(sc) for sc in scenarios]
+    return assess(scenarios, runs, validate([{"cfg": sc["cfg"], "events": r[0]} for sc, r in zip(scenarios, runs)]))
 
 
 # ------------------------------------------------------------------------------ workers
 
 def _emit_shard(args):
     """One emission shard: TLC explores its share of the configurations and prints every finished
-    behaviour; the scenarios are replayed and judged right here."""
+    behaviour of the model as a scenario."""
     plan, K, S = args
     r = tlc.run("MC_Proxy", mc_cfg(plan, ["Emit"], K=K, S=S, emit=True), workers=1, timeout=7200, heap="2g")
     scs = tlc.tagged_json(r.out, "SC")
     for sc in scs:
         norm_expected(sc["log"])
-    out = judge(scs)
-    out.update(emitted=len(scs), distinct=r.distinct, generated=r.generated, wall=r.wall, plan=plan)
-    return out
+        sc["origin"] = "exhaustive:" + plan
+    return {"scs": scs, "distinct": r.distinct, "generated": r.generated, "wall": r.wall, "plan": plan}
 
 
-def _judge_chunk(scs):
-    return judge(scs)
+def _drive_chunk(scs):
+    return [run_scenario(sc) for sc in scs]
+
+
+def _validate_chunk(traces):
+    return validate(traces)
 
 
 def _stage1(args):
@@ -299,35 +276,44 @@ def _stage1(args):
             "wall": r.wall, "violated": r.violated, "error": r.error, "coverage": r.coverage, "tail": r.out[-1500:]}
 
 
+def chunks(xs, n):
+    step = max(1, -(-len(xs) // n))
+    return [xs[i:i + step] for i in range(0, len(xs), step)]
+
+
 # ------------------------------------------------------------------------------ the check
 
-def _absorb(rep, out, findings, origin):
-    rep.traces += out["n"]
-    rep.evaluations += out["n"]
-    rep.nontrivial.update(out["nt"])
-    for s in out["samples"]:
-        rep.sample(s, cap=5)
-    rep.extra["flaky_reruns"] = rep.extra.get("flaky_reruns", 0) + out["flaky"]
-    rep.extra["trace_events"] = rep.extra.get("trace_events", 0) + out["events"]
-    for o in out["harness"]:
-        raise tlc.MachineryError(f"harness problem while replaying {sc_key(o['sc'])}: {o['errors']}")
-    for o in out["viol"]:
+def _absorb(rep, results, findings):
+    """Book the assessed scenarios: hard verdicts from TLC's Rules, drift from the expected logs."""
+    for o in results:
         sc = o["sc"]
-        case = {"kind": "scenario", "scenario": sc, "recorded": o["events"], "raw": o["raw"], "origin": origin}
-        facts = dict(sc["cfg"], clause=o["clause"], nreq=sc["nreq"])
-        facts["ph"], facts["rh"] = ",".join(sorted(facts["ph"])), ",".join(sorted(facts["rh"]))
-        f = known.match(findings, facts)
-        ev = o["events"][o["pos"] - 1] if 0 < o["pos"] <= len(o["events"]) else {}
-        what = (f"{o['clause']} at event {o['pos']} "
-                f"{ {k: v for k, v in ev.items() if v != pn.BLANK.get(k)} } in scenario {sc_key(sc)}")
-        if f:
-            rep.known.append((f["id"], what))
-        else:
-            rep.violation(o["clause"], what, case)
-    for o in out["drift"]:
-        rep.drift.append(f"{o['diff']} in scenario {sc_key(o['sc'])}")
-    for o in out["soft"]:
-        rep.drift.append(f"extra invariant {o['soft']} does not hold on the recorded log of {sc_key(o['sc'])}")
+        rep.traces += 1
+        rep.evaluations += 1
+        rep.extra["trace_events"] = rep.extra.get("trace_events", 0) + len(o["events"])
+        if nontrivial(sc):
+            rep.nontrivial.add(hashlib.md5(sc_key(sc).encode()).hexdigest()[:16])
+            if len(rep.samples) < 4 and (len(rep.samples) < 2 or sc["closes"]):
+                rep.sample({"scenario": {k: sc[k] for k in ("cfg", "nreq", "replies", "closes")},
+                            "recorded": [{k: v for k, v in e.items() if v != pn.BLANK[k]} for e in o["events"]],
+                            "verdict": o["clause"]})
+        if o["clause"] != "ok":
+            case = {"kind": "scenario", "scenario": sc, "recorded": o["events"], "raw": o["raw"]}
+            facts = dict(sc["cfg"], clause=o["clause"], nreq=sc["nreq"])
+            facts["ph"], facts["rh"] = ",".join(sorted(facts["ph"])), ",".join(sorted(facts["rh"]))
+            f = known.match(findings, facts)
+            ev = o["events"][o["pos"] - 1] if 0 < o["pos"] <= len(o["events"]) else {}
+            what = (f"{o['clause']} at event {o['pos']} "
+                    f"{ {k: v for k, v in ev.items() if v != pn.BLANK.get(k)} } in scenario {sc_key(sc)}")
+            if f:
+                rep.known.append((f["id"], what))
+            else:
+                rep.violation(o["clause"], what, case)
+        elif o["errors"]:
+            raise tlc.MachineryError(f"harness problem while replaying {sc_key(sc)}: {o['errors']}")
+        elif o["diff"]:
+            rep.drift.append(f"{o['diff']} in scenario {sc_key(sc)}")
+        elif o["soft"] != "ok":
+            rep.drift.append(f"extra invariant {o['soft']} does not hold on the recorded log of {sc_key(sc)}")
 
 
 def run(rep):
@@ -346,28 +332,62 @@ def run(rep):
             [(k, h) for h in pn.HOSTS.values() for k in ("ok", "untrusted", "proxyname")]:
         world.ctx_for(kind, ident)          # minted before the fork: workers share them
     plans = ["core", "forms"] if quick else ["core3", "forms2"]
-    K = 8 if quick else 16
+    K = 1 if quick else 8
     nsim = 300 if quick else 4000
+    nproc = 12 if quick else 16
     try:
-        with mp.Pool(12 if quick else 16) as pool:
-            # ---- stage 1 (asynchronously, while emission shards run)
+        with mp.Pool(nproc) as pool:
+            # ---- stage 1 runs asynchronously while scenarios are emitted and replayed
             s1jobs = [(f"MC_Proxy[{p}]", p, HARD + EXTRA, "none", p == plans[0]) for p in plans]
             s1jobs += [(f"MC_Proxy[bugs,Bug={b}]", "bugs", [c] if c else HARD, b, False) for b, c in BUGS.items()]
             s1 = pool.map_async(_stage1, s1jobs)
             emis = pool.map_async(_emit_shard, [(p, K, s) for p in plans for s in range(K)])
-            # ---- simulation beyond the exhaustive plans
+            # ---- stage 2b: simulation over the full constants (beyond the exhaustive plans)
             rs = tlc.run("MC_Proxy", mc_cfg("full", ["Emit"], emit=True), workers=1, simulate=f"num={nsim}", depth=400,
                          seed=rep.seed + 1, heap="2g", timeout=3600)
-            sims, seen = [], set()
+            scenarios, seen, emitted = [], set(), 0
+            for o in emis.get():
+                emitted += len(o["scs"])
+                rep.stage1.append({"run": f"emission {o['plan']}", "distinct_states": o["distinct"],
+                                   "states_generated": o["generated"], "wall_s": round(o["wall"], 1),
+                                   "scenarios": len(o["scs"])})
+                for sc in o["scs"]:
+                    if sc_key(sc) not in seen:
+                        seen.add(sc_key(sc))
+                        scenarios.append(sc)
+            nsims = 0
             for sc in tlc.tagged_json(rs.out, "SC"):
+                nsims += 1
                 if sc_key(sc) not in seen:
                     seen.add(sc_key(sc))
-                    sims.append(sc)
                     norm_expected(sc["log"])
-            if len(seen) < nsim // 4:
-                raise tlc.MachineryError(f"simulation produced only {len(seen)} distinct behaviours of {nsim}")
-            step = max(1, len(sims) // 32 + 1)
-            simres = pool.map_async(_judge_chunk, [sims[i:i + step] for i in range(0, len(sims), step)])
+                    sc["origin"] = "simulation"
+                    scenarios.append(sc)
+            if nsims != nsim:
+                raise tlc.MachineryError(f"simulation printed {nsims} finished behaviours, asked for {nsim}")
+            if emitted < (500 if quick else 5000):
+                raise tlc.MachineryError(f"only {emitted} scenarios emitted")
+            rep.extra["scenarios_emitted_exhaustive"] = emitted
+            rep.extra["scenarios_simulated"] = nsims
+            rep.extra["scenarios_distinct"] = len(scenarios)
+
+            # ---- stage 3: replay on the real code;  stage 4: TLC judges the recorded logs
+            parts = chunks(scenarios, nproc * 4)
+            runs = [r for part in pool.map(_drive_chunk, parts) for r in part]
+            if len(runs) != len(scenarios):
+                raise tlc.MachineryError(f"replayed {len(runs)} of {len(scenarios)} scenarios")
+            traces = [{"cfg": sc["cfg"], "events": r[0]} for sc, r in zip(scenarios, runs)]
+            verdicts = [v for part in pool.map(_validate_chunk, chunks(traces, 4 if quick else 12)) for v in part]
+            results = assess(scenarios, runs, verdicts)
+            # a non-clean scenario is re-run once: only a reproducible result counts
+            dirty = [i for i, o in enumerate(results) if not clean(o)]
+            if dirty:
+                again = judge([results[i]["sc"] for i in dirty[:200]])
+                for i, o2 in zip(dirty, again):
+                    if clean(o2):
+                        rep.extra["flaky_reruns"] = rep.extra.get("flaky_reruns", 0) + 1
+                    results[i] = o2
+            _absorb(rep, results, findings)
 
             # ---- collect stage 1
             for o in s1.get():
@@ -383,7 +403,7 @@ def run(rep):
                                       {"kind": "stage1", "plan": o["plan"]})
                     if o["coverage"]:
                         dead = [a for a, (_, tot) in o["coverage"].items()
-                                if tot == 0 and a not in DEVIATION_ONLY_ACTIONS and a != "TInit"]
+                                if tot == 0 and a not in DEVIATION_ONLY_ACTIONS]
                         if dead or len(o["coverage"]) < 10:
                             raise tlc.MachineryError(f"{o['name']}: actions never taken: {dead} (vacuous model)")
                         rep.extra["action_coverage"] = {a: t for a, (_, t) in o["coverage"].items()}
@@ -395,24 +415,6 @@ def run(rep):
                         raise tlc.MachineryError(f"{o['name']}: the deviation should violate {want}, TLC reported "
                                                  f"{o['violated']} (clause is vacuous or mis-stated)")
             rep.extra["design_deviations_caught"] = sorted(b for b, c in BUGS.items() if c)
-
-            # ---- collect conformance
-            emitted = 0
-            for o in emis.get():
-                emitted += o["emitted"]
-                if o["n"] != o["emitted"]:
-                    raise tlc.MachineryError(f"shard replayed {o['n']} of {o['emitted']} emitted scenarios")
-                _absorb(rep, o, findings, "exhaustive:" + o["plan"])
-            nsimrun = 0
-            for o in simres.get():
-                nsimrun += o["n"]
-                _absorb(rep, o, findings, "simulation")
-            if nsimrun != len(sims):
-                raise tlc.MachineryError(f"replayed {nsimrun} of {len(sims)} simulated scenarios")
-            if emitted < (500 if quick else 5000):
-                raise tlc.MachineryError(f"only {emitted} scenarios emitted")
-            rep.extra["scenarios_emitted_exhaustive"] = emitted
-            rep.extra["scenarios_simulated_distinct"] = len(sims)
     finally:
         shutil.rmtree(world.dir, ignore_errors=True)
     if rep.extra.get("flaky_reruns", 0) > max(5, rep.traces // 100):
@@ -434,7 +436,6 @@ def replay(rep, path):
         return
     world = pn.World.get()
     try:
-        out = judge([case["scenario"]])
-        _absorb(rep, out, known.load("C09"), "replay")
+        _absorb(rep, judge([case["scenario"]]), known.load("C09"))
     finally:
         shutil.rmtree(world.dir, ignore_errors=True)
